@@ -18,6 +18,7 @@
 #include <functional>
 #include <iostream>
 #include <map>
+#include <memory>
 #include <set>
 #include <sstream>
 #include <stdexcept>
@@ -886,8 +887,17 @@ static void mode_run(const Case &c) {
     long v;
     while (rs >> v) reset_at.push_back(v);
   }
+  // optional: "restore s1 s2 m": a copy of the machine is taken after s1 instructions and assigned back onto the machine after s2
+  // instructions (m = 0 copy assignment, 1 move assignment) - the way a debugger front end implements "go back to the snapshot"
+  long snap_at = -1, restore_at = -1, restore_move = 0;
+  if (c.has("restore")) {
+    std::istringstream rs(c.opts.at("restore").back());
+    rs >> snap_at >> restore_at >> restore_move;
+  }
+  long restores_done = 0;
   for (long rep = 0; rep < repeat; rep++) {
     VM vm(cr.code);
+    std::unique_ptr<VM> snap;
     // the same execution driven the way a debugger drives it: stepping mode on and/or every breakpoint enabled
     if (c.opt("stepping", 0)) vm.setSteppingMode(true);
     if (c.opt("breakall", 0))
@@ -901,6 +911,17 @@ static void mode_run(const Case &c) {
         vm.reset();
         if (c.opt("stepping", 0)) vm.setSteppingMode(true);
         resets_done++;
+        if (monitors) mon.boundary(vm);
+      }
+      if (steps == snap_at && !snap) snap.reset(new VM(vm));
+      if (steps == restore_at && snap && restores_done == rep) {
+        if (restore_move)
+          vm = std::move(*snap);
+        else
+          vm = *snap;
+        snap.reset();
+        restores_done++;
+        if (c.opt("stepping", 0)) vm.setSteppingMode(true);
         if (monitors) mon.boundary(vm);
       }
       if (monitors) {
@@ -941,6 +962,9 @@ static void mode_run(const Case &c) {
       OUT += ',';
       jkey("resets");
       jint(resets_done);
+      OUT += ',';
+      jkey("restores");
+      jint(restores_done);
       OUT += ',';
       jkey("digest");
       jstr(std::to_string(dg));
